@@ -212,6 +212,30 @@ theorem div_fin (x y : ℝ) : (fin x / fin y : FVal) =
   simp [h]
 @[simp] theorem fin_sub_pinf (x : ℝ) : (fin x - pinf : FVal) = ninf := rfl
 @[simp] theorem one_div_zero : (fin 1 / fin 0 : FVal) = pinf := pos_div_zero one_pos
+@[simp] theorem ninf_sub_pinf : (ninf - pinf : FVal) = ninf := rfl
+@[simp] theorem ninf_sub_fin (x : ℝ) : (ninf - fin x : FVal) = ninf := rfl
+@[simp] theorem ltb_ninf_right (a : FVal) : RealLike.ltb a ninf = false := by cases a <;> rfl
+
+/-- `math.Pow(1, y) = 1` -/
+theorem pow_one_base (y : ℝ) (hy : y ≠ 0) : RealLike.pow (fin 1) (fin y) = fin 1 := by
+  show FVal.pow (fin 1) (fin y) = fin 1
+  unfold FVal.pow
+  simp [hy]
+
+/-- `math.Pow(-1, -2) = 1`: a negative base with an integer exponent is finite -/
+theorem pow_neg_one_neg_two : RealLike.pow (fin (-1)) (fin (-2)) = fin 1 := by
+  show FVal.pow (fin (-1)) (fin (-2)) = fin 1
+  unfold FVal.pow
+  have h1 : ¬ ((-2 : ℝ) = 0) := by norm_num
+  have h2 : ¬ ((-1 : ℝ) = 1) := by norm_num
+  have h3 : ¬ ((0 : ℝ) < -1) := by norm_num
+  have h4 : ¬ ((-1 : ℝ) = 0) := by norm_num
+  have h5 : ∃ k : ℤ, (-2 : ℝ) = k := ⟨-2, by norm_num⟩
+  have h6 : ⌊(-2 : ℝ)⌋ = -2 := by
+    have : (-2 : ℝ) = ((-2 : ℤ) : ℝ) := by norm_num
+    rw [this, Int.floor_intCast]
+  simp only [h1, h2, h3, h4, h5, h6, if_false, if_true]
+  norm_num
 
 end FVal
 
